@@ -137,9 +137,25 @@ def ob_representation(mesh, spec):
 # ---- dual spaces: nodal tables ---------------------------------------------------------------------------------------------
 
 
+def boundary_vertices(grid):
+    """vertices on the boundary of the grid, from the element list alone: end points of the sides that belong to exactly one element (not the grid's own flags, which
+    are part of the code under contract)"""
+    count = {}
+    for E in range(grid.number_of_elements):
+        v = [int(x) for x in grid.elements[:, E]]
+        for a, b in ((v[0], v[1]), (v[1], v[2]), (v[2], v[0])):
+            count[(min(a, b), max(a, b))] = count.get((min(a, b), max(a, b)), 0) + 1
+    out = set()
+    for (a, b), c in count.items():
+        if c == 1:
+            out.update((a, b))
+    return out
+
+
 def p1_vertex_spec(grid, support, include_boundary_dofs, truncate):
     """the vertices that carry a P1 dof, and the final support (documented meaning of the options)"""
     ne = grid.number_of_elements
+    on_boundary = boundary_vertices(grid)
     adj = {}
     for E in range(ne):
         for k in range(3):
@@ -150,7 +166,7 @@ def p1_vertex_spec(grid, support, include_boundary_dofs, truncate):
             continue
         for k in range(3):
             vtx = int(grid.elements[k, E])
-            interior = all(support[n] for n in adj[vtx]) and not grid.vertex_on_boundary[vtx]
+            interior = all(support[n] for n in adj[vtx]) and vtx not in on_boundary
             if include_boundary_dofs or interior:
                 verts.add(vtx)
     final = np.array(support, dtype=bool).copy()
@@ -422,6 +438,7 @@ def replay_bc_divergence(mesh, kind, seed):
     bary = sp.grid
     T = BC.dense(sp.dof_transformation)
     nv = g.number_of_vertices
+    _bnd = boundary_vertices(g)
     lengths = np.linalg.norm(bary.vertices[:, bary.edges[0]] - bary.vertices[:, bary.edges[1]], axis=0)
     adj = {}
     for E in range(g.number_of_elements):
@@ -437,7 +454,7 @@ def replay_bc_divergence(mesh, kind, seed):
             b = int(b)
             D = sum(T[int(sp.local2global[b, j]), d] * lengths[int(bary.element_edges[j, b])] for j in range(3))
             w = [int(x) for x in bary.elements[:, b] if int(x) < nv][0]
-            if w in ends and not g.vertex_on_boundary[w]:
+            if w in ends and w not in _bnd:
                 want = 1.0 / (2 * len(adj[w]))
                 if abs(abs(D) - want) > 1e-11:
                     bad.append({"dof": d, "barycentric_element": b, "vertex": w, "integral_of_divergence": float(D), "required_magnitude": want})
